@@ -10,6 +10,7 @@ def run(ctx):
     statics.rule_backend_abstraction(ctx)
     satlayer.rule_assumptions_transient(ctx)
     progress.rule_local_selector_retired(ctx)
+    progress.rule_selector_is_next_variable(ctx)
     # per configuration axis, a structural necessary condition of `same status`:
     # encoding: the three encoders build the reference clause shapes over disjoint variable families, and the CLI picks the encoder of the
     # base semantics for every --encoding value
